@@ -21,6 +21,8 @@ SHAPES = [
     "!ordisabled x", "!ordisabled [1]", '!ordisabled "$.steps.a.outputs"', '!ordisabled "$.steps"', '!ordisabled "steps.a.outputs.success"', '!ordisabled ""', '!ordisabled "$.input.tag"',
     '!soft-optional "0!"', '!wait-optional "$.steps.a.outputs.success!"', '!soft-optional "((("', '!wait-optional "1 +"', '!ordisabled "0!"', '!oneof {discriminator: d, one_of: {a: !expr "0!"}}',
     "!soft-optional [1]", "!wait-optional {}", '!soft-optional "$.x("', '!wait-optional ""', '!soft-optional "$.steps.a.outputs.success"', "!wait-optional x",
+    "!oneof {discriminator: d, one_of: {a: {l: []}}}", "!oneof {discriminator: d, one_of: {a: {m: {}}, b: {l: [[]]}}}", '!oneof {discriminator: d, one_of: {a: {l: [], t: !expr "$.input.tag"}}}',
+    '!oneof {discriminator: d, one_of: {a: !soft-optional "$.steps.a.outputs.success", b: !wait-optional "$.steps.a.outputs.error"}}',
     "!foo x", "!!binary x", "!!int x", "!!map x", "!!seq {a: b}", "!!str [1]", "! x",
 ]
 
@@ -205,6 +207,12 @@ def subworkflow_cases(check):
     # block styles mixed, comments and anchors around
     ESC = SUB_TMPL.replace("kind: foreach", 'kind: "\\x66oreach"')
     BLOCK = SUB_TMPL.replace("loop: {kind: foreach, workflow: %s, items: [{tag: !expr \"$.input.tag\"}]}", "loop:\n    items:\n      - tag: !expr $.input.tag\n    workflow: %s   # the file\n    kind: >-\n      foreach")
+    CAPS = SUB_TMPL.replace("kind: foreach", "kind: Foreach")
+    UPPER = SUB_TMPL.replace("kind: foreach", "kind: FOREACH")
+    for name, tmpl in (("capitalised-kind", CAPS), ("upper-case-kind", UPPER)):
+        add({"workflow.yaml": main % "a.yaml", "a.yaml": tmpl % "a.yaml"}, "sub-workflow with %s references itself" % name, "spelling:%s:self" % name, "error")
+        add({"workflow.yaml": main % "a.yaml", "a.yaml": tmpl % "b.yaml", "b.yaml": tmpl % "a.yaml"}, "mutually referencing sub-workflows with %s" % name, "spelling:%s:mutual" % name, "error")
+        add({"workflow.yaml": main % "a.yaml", "a.yaml": tmpl % "leaf.yaml", "leaf.yaml": LEAF}, "nested chain, middle file with %s" % name, "spelling:%s:nested" % name, None)
     for name, tmpl in (("escaped-kind", ESC), ("block-style-kind", BLOCK)):
         add({"workflow.yaml": main % "mid.yaml", "mid.yaml": tmpl % "leaf.yaml", "leaf.yaml": LEAF}, "nested chain, middle file with %s" % name, "spelling:%s:nested" % name, "ok")
         add({"workflow.yaml": main % "a.yaml", "a.yaml": tmpl % "a.yaml"}, "sub-workflow with %s references itself" % name, "spelling:%s:self" % name, "error")
